@@ -7,6 +7,7 @@ import (
 	"fmt"
 	"os"
 	"path/filepath"
+	"reflect"
 	"sort"
 	"time"
 )
@@ -135,6 +136,12 @@ var BaseAssumptions = []string{
 func WriteEvidence(e *Evidence) {
 	dir := filepath.Join(VerifDir, "evidence")
 	os.MkdirAll(dir, 0o755)
+	// samples is always a list, also for a run that stopped at a violation before any sample was chosen
+	if cov := e.Coverage; cov != nil {
+		if v, has := cov["samples"]; !has || v == nil || (reflect.ValueOf(v).Kind() == reflect.Slice && reflect.ValueOf(v).IsNil()) {
+			cov["samples"] = []any{}
+		}
+	}
 	b, _ := json.MarshalIndent(e, "", " ")
 	if err := os.WriteFile(filepath.Join(dir, e.PropertyID+".json"), b, 0o644); err != nil {
 		hpanic("write evidence: %v", err)
